@@ -210,6 +210,69 @@ func genC04(e *emitter, tier string, seed uint64) map[string]interface{} {
 		}
 		gzDecOp(e, d, "gzip/random")
 	}
+	perrRun := func(st int, codec protocol.CodecType, typ protocol.PacketType, body []byte) {
+		// the decoder of the error body is an oracle for the model: what the real proto/json decoder says
+		dec := "none"
+		var ce control.Error
+		switch codec {
+		case protocol.CodecProtobuf:
+			if pb.Unmarshal(body, &ce) == nil {
+				dec = fmt.Sprintf("%d:%s", ce.GetCode(), hex.EncodeToString([]byte(ce.GetMsg())))
+			}
+		case protocol.CodecJSON:
+			if json.Unmarshal(body, &ce) == nil {
+				dec = fmt.Sprintf("%d:%s", ce.GetCode(), hex.EncodeToString([]byte(ce.GetMsg())))
+			}
+		}
+		p := protocol.Packet{Metadata: &protocol.Metadata{Type: typ, StatusCode: uint8(st), Codec: codec}, Body: body}
+		var lb *protocol.LBError
+		res := guard(func() string {
+			err := p.Err()
+			if err == nil {
+				return "nil"
+			}
+			l, ok := err.(*protocol.LBError)
+			if !ok {
+				return "other-error"
+			}
+			lb = l
+			msg := hex.EncodeToString([]byte(l.Message))
+			if l.Message == "unknown error, cant unmarshal body" {
+				msg = "FALLBACK"
+			}
+			return fmt.Sprintf("err status=%d code=%d msg=%s", l.Status, l.Code, msg)
+		})
+		idx := e.op(fmt.Sprintf("perr type=%s st=%d codec=%d body=%s dec=%s", typeName(typ), st, codec, hexSpec(body).String(), dec), res, "packet-err", true)
+		switch {
+		case res == "panic":
+			e.fail(idx, "err_total", "Packet.Err panicked")
+		case (typ != protocol.ResponsePacket || st == 0) && res != "nil":
+			e.fail(idx, "err_mapping", "success / non-response surfaced as error: "+res)
+		case typ == protocol.ResponsePacket && st != 0 && (lb == nil || lb.Status != uint8(st)):
+			e.fail(idx, "err_mapping", "non-zero status not surfaced as typed error with that status: "+res)
+		case lb != nil && dec == "none" && (lb.Code != 500 || lb.Message != "unknown error, cant unmarshal body"):
+			e.fail(idx, "err_mapping", "undecodable error body did not give the code-500 fallback: "+res)
+		}
+	}
+	// the statuses around the defined range (0..8 are defined, 9 is the first that is not) and the largest ones, with every codec and both
+	// kinds of packet, for the three bodies a gateway really sends: nothing, an error message without text, an error message with text
+	for _, st := range []int{0, 1, 2, 3, 4, 5, 6, 7, 8, 9, 10, 11, 15, 16, 17, 127, 128, 254, 255} {
+		for _, codec := range []protocol.CodecType{protocol.CodecProtobuf, protocol.CodecJSON, protocol.CodecUnknown, 7} {
+			for _, typ := range []protocol.PacketType{protocol.ResponsePacket, protocol.PushPacket} {
+				for _, ce := range []*control.Error{nil, {Code: uint64(st)}, {Code: 4000 + uint64(st), Msg: "denied"}} {
+					var body []byte
+					if ce != nil {
+						if codec == protocol.CodecJSON {
+							body, _ = json.Marshal(ce)
+						} else {
+							body, _ = pb.Marshal(ce)
+						}
+					}
+					perrRun(st, codec, typ, body)
+				}
+			}
+		}
+	}
 	// typed error extraction: Packet.Err on every status x (valid error body | garbage | empty) x codec x type
 	for st := 0; st < 256; st++ {
 		for k := 0; k < 4; k++ {
@@ -255,48 +318,7 @@ func genC04(e *emitter, tier string, seed uint64) map[string]interface{} {
 					}
 				}
 			}
-			// the decoder of the error body is an oracle for the model: what the real proto/json decoder says
-			dec := "none"
-			var ce control.Error
-			switch codec {
-			case protocol.CodecProtobuf:
-				if pb.Unmarshal(body, &ce) == nil {
-					dec = fmt.Sprintf("%d:%s", ce.GetCode(), hex.EncodeToString([]byte(ce.GetMsg())))
-				}
-			case protocol.CodecJSON:
-				if json.Unmarshal(body, &ce) == nil {
-					dec = fmt.Sprintf("%d:%s", ce.GetCode(), hex.EncodeToString([]byte(ce.GetMsg())))
-				}
-			}
-			p := protocol.Packet{Metadata: &protocol.Metadata{Type: typ, StatusCode: uint8(st), Codec: codec}, Body: body}
-			var lb *protocol.LBError
-			res := guard(func() string {
-				err := p.Err()
-				if err == nil {
-					return "nil"
-				}
-				l, ok := err.(*protocol.LBError)
-				if !ok {
-					return "other-error"
-				}
-				lb = l
-				msg := hex.EncodeToString([]byte(l.Message))
-				if l.Message == "unknown error, cant unmarshal body" {
-					msg = "FALLBACK"
-				}
-				return fmt.Sprintf("err status=%d code=%d msg=%s", l.Status, l.Code, msg)
-			})
-			idx := e.op(fmt.Sprintf("perr type=%s st=%d codec=%d body=%s dec=%s", typeName(typ), st, codec, hexSpec(body).String(), dec), res, "packet-err", true)
-			switch {
-			case res == "panic":
-				e.fail(idx, "err_total", "Packet.Err panicked")
-			case (typ != protocol.ResponsePacket || st == 0) && res != "nil":
-				e.fail(idx, "err_mapping", "success / non-response surfaced as error: "+res)
-			case typ == protocol.ResponsePacket && st != 0 && (lb == nil || lb.Status != uint8(st)):
-				e.fail(idx, "err_mapping", "non-zero status not surfaced as typed error with that status: "+res)
-			case lb != nil && dec == "none" && (lb.Code != 500 || lb.Message != "unknown error, cant unmarshal body"):
-				e.fail(idx, "err_mapping", "undecodable error body did not give the code-500 fallback: "+res)
-			}
+			perrRun(st, codec, typ, body)
 		}
 	}
 	// after an error the context can be used again (an application may keep a connection whose bad frame was consumed whole): polled with
